@@ -1925,7 +1925,11 @@ class LLParser:
                             parser_summary, cycle_data, nullables)
 
                 if cur_symbol in processed_symbols:
-                    _next_prod(stack)
+                    if cur_symbol in nullables:
+                        # recursion may be hidden behind this symbol
+                        _next_symbol(stack)
+                    else:
+                        _next_prod(stack)
                     continue
                 # cur_symbol is non-terminal. May need to go deeper
                 if cur_symbol_id > 0:
